@@ -64,6 +64,73 @@ theorem analyze_error_rate_def (i : K) (nsq : K → Q) (c : Circ K) (rules : Lis
           | none => e) 1) / (((r.probs.zip ex).length : Nat) : Q)) :=
   Proofs.C05.analyze_error_rate_def i nsq c rules inputs ex r h
 
+/-! ### the error rate, semantically (repair F31) -/
+
+omit [LinearOrder Q] [IsStrictOrderedRing Q] in
+/-- THE ERROR RATE IS ONE MINUS THE ACCEPTED-AND-EXPECTED FRACTION: for pairwise distinct reported
+outputs the per-input fold of `analyze` equals `1 - (Σ of the row entries whose output occurs in
+exps) / Σ row`.  The expected list enters only through membership (`exps.contains`): every
+accepted-and-expected output is counted exactly once, however often it is listed. -/
+theorem error_fold_eq_set_sum (row : List Q) (outs exps : List FState) (hnd : outs.Nodup) :
+    exps.eraseDups.foldl (fun e o => match outs.idxOf? o with
+        | some k => e - row.getD k 0 / sumQ row
+        | none => e) 1 =
+      1 - (((outs.zip row).filter fun x => exps.contains x.1).map (·.2)).sum / sumQ row :=
+  Proofs.C05.error_fold_eq_set_sum row outs exps hnd
+
+omit [LinearOrder Q] [IsStrictOrderedRing Q] in
+/-- two expected lists with the same members (any order, any multiplicities) give the same value -/
+theorem error_fold_perm_dup_invariant (row : List Q) (outs e₁ e₂ : List FState) (hnd : outs.Nodup)
+    (h : ∀ o, o ∈ e₁ ↔ o ∈ e₂) :
+    e₁.eraseDups.foldl (fun e o => match outs.idxOf? o with
+        | some k => e - row.getD k 0 / sumQ row
+        | none => e) 1 =
+    e₂.eraseDups.foldl (fun e o => match outs.idxOf? o with
+        | some k => e - row.getD k 0 / sumQ row
+        | none => e) 1 :=
+  Proofs.C05.error_fold_perm_dup_invariant row outs e₁ e₂ hnd h
+
+/-- for a non-negative row of positive total and pairwise distinct reported outputs the per-input
+error rate lies in `[0, 1]` -/
+theorem error_fold_in_unit_interval (row : List Q) (outs exps : List FState)
+    (hrow : ∀ p ∈ row, 0 ≤ p) (hs : 0 < sumQ row) (hnd : outs.Nodup) :
+    0 ≤ exps.eraseDups.foldl (fun e o => match outs.idxOf? o with
+        | some k => e - row.getD k 0 / sumQ row
+        | none => e) 1 ∧
+    exps.eraseDups.foldl (fun e o => match outs.idxOf? o with
+        | some k => e - row.getD k 0 / sumQ row
+        | none => e) 1 ≤ 1 :=
+  Proofs.C05.error_fold_in_unit_interval row outs exps hrow hs hnd
+
+/-- the outputs `analyze` reports are pairwise distinct and its table is non-negative -/
+theorem analyze_outputs_nodup_probs_nonneg (i : K) (nsq : K → Q) (hn : ∀ z, 0 ≤ nsq z) (c : Circ K)
+    (rules : List Rule) (inputs : List (List Occ)) (ex : Option (List (List FState)))
+    (r : AnalysisResult Q) (h : analyze i nsq c rules inputs ex = .ok r) :
+    r.outputs.Nodup ∧ ∀ row ∈ r.probs, ∀ p ∈ row, 0 ≤ p :=
+  ⟨Proofs.C05.analyze_outputs_nodup i nsq c rules inputs ex r h,
+    Proofs.C05.analyze_probs_nonneg i nsq hn c rules inputs ex r h⟩
+
+/-- the error rate `analyze` reports lies in `[0, 1]` whenever every input has a positive accepted
+total and one list of expected outputs is given per input -/
+theorem analyze_error_rate_in_unit_interval (i : K) (nsq : K → Q) (hn : ∀ z, 0 ≤ nsq z)
+    (c : Circ K) (rules : List Rule) (inputs : List (List Occ)) (ex : List (List FState))
+    (r : AnalysisResult Q) (h : analyze i nsq c rules inputs (some ex) = .ok r)
+    (hpos : ∀ row ∈ r.probs, 0 < sumQ row) (hlen : ex.length = inputs.length) :
+    ∃ e, r.errorRate = some e ∧ 0 ≤ e ∧ e ≤ 1 :=
+  Proofs.C05.analyze_error_rate_in_unit_interval i nsq hn c rules inputs ex r h hpos hlen
+
+/-- F31: WITHOUT the deduplication (the code before the repair) the fold can be negative: one output
+of probability one, listed twice as expected, gives `1 - 1 - 1 < 0` (and `0` after the repair) -/
+theorem error_fold_without_dedup_can_be_negative :
+    ∃ (row : List Rat) (outs exps : List FState), outs.Nodup ∧
+      exps.foldl (fun e o => match outs.idxOf? o with
+        | some k => e - row.getD k 0 / sumQ row
+        | none => e) 1 < 0 ∧
+      exps.eraseDups.foldl (fun e o => match outs.idxOf? o with
+        | some k => e - row.getD k 0 / sumQ row
+        | none => e) 1 = 0 :=
+  Proofs.C05.error_fold_without_dedup_can_be_negative
+
 /-- QUICK SAMPLER = CONDITIONAL: every entry of the quick sampler's distribution is the probability
 of that output with heralds satisfied and no photon lost, divided by the total over all outputs
 that satisfy the post-selection (and, for threshold detection, hold at most one photon per mode)
